@@ -163,20 +163,35 @@ def confirm(v):
     t, mdl = v['task'], v['model']
     if not mdl:
         return False, 'no model'
-    x = mdl['n'] if t['sign'] >= 0 else -mdl['n']
-    out = native_sqrt(t['entry'], x, t['scale'], t['p'], t['mode'])
-    if out.startswith('PANIC'):
-        return True, out
-    if t['sign'] < 0 and t['entry'] == 'ref_sqrt_with_context' or (t['sign'] < 0 and t['entry'] == 'sqrt_with_context'):
-        return out != 'None', out
-    if out == 'None':
-        return True, out
-    ri, rs = H.parse_dec(out)
-    ei, es = exact_sqrt_rounded(x, t['scale'], t['p'], t['mode'])
-    if t['entry'] == 'ref_sqrt_copysign' and t['sign'] < 0:
-        ei = -ei
-    M = max(rs, es)
-    return ri * 10 ** (M - rs) != ei * 10 ** (M - es), '%s (exact: %d@%d)' % (out, ei, es)
+    def one(n):
+        x = n if t['sign'] >= 0 else -n
+        out = native_sqrt(t['entry'], x, t['scale'], t['p'], t['mode'])
+        if out.startswith('PANIC'):
+            return True, out
+        if t['sign'] < 0 and t['entry'] == 'ref_sqrt_with_context' or (t['sign'] < 0 and t['entry'] == 'sqrt_with_context'):
+            return out != 'None', out
+        if out == 'None':
+            return True, out
+        ri, rs = H.parse_dec(out)
+        ei, es = exact_sqrt_rounded(x, t['scale'], t['p'], t['mode'])
+        if t['entry'] == 'ref_sqrt_copysign' and t['sign'] < 0:
+            ei = -ei
+        M = max(rs, es)
+        return ri * 10 ** (M - rs) != ei * 10 ** (M - es), '%s (exact: %d@%d)' % (out, ei, es)
+    ok, out = one(mdl['n'])
+    if ok:
+        return ok, out
+    # the root contract leaves the integer root and its exactness flag free: look natively for an input of the same task
+    # shape that is consistent with an exact root (perfect squares times powers of ten, outside the known-finding regions)
+    for n in K.perfect_power_candidates(t['nd'], 2, mdl['n']):
+        if in_known_region(n, t['scale'], t['p']):
+            continue
+        ok2, out2 = one(n)
+        if ok2:
+            mdl['n_from_solver'] = mdl['n']
+            mdl['n'] = n
+            return True, out2 + ' [witness found natively among perfect squares of this task shape]'
+    return ok, out
 
 
 def main(tier):
